@@ -13,14 +13,14 @@ import (
 )
 
 type Result struct {
-	O       *Obligation
-	Status  string // discharged | refuted | undecided
-	Solver  string
-	Ms      int64
-	Model   map[string]string
-	Output  string
-	Query   string
-	Second  string // cross-check solver (thorough)
+	O      *Obligation
+	Status string // discharged | refuted | undecided
+	Solver string
+	Ms     int64
+	Model  map[string]string
+	Output string
+	Query  string
+	Second string // cross-check solver (thorough)
 }
 
 func (g *Gen) preamble() string {
